@@ -69,6 +69,7 @@ func typeName(t types.Type) string {
 		}
 		return "interface{}"
 	})
+	s = stripTypeArgs(s)
 	s = strings.NewReplacer(" ", "_", "(", "<", ")", ">", "|", "!", ";", "_", "\"", "'", "\n", "_", "\t", "_").Replace(s)
 	if len(s) > 120 {
 		s = fmt.Sprintf("%s~%x", s[:100], hashStr(s))
@@ -122,6 +123,9 @@ func (x *Exec) regHeap(name, sort string) (string, string) {
 }
 
 func (x *Exec) noteRefHeap(name string, t types.Type) {
+	if isTypeParam(t) {
+		return
+	}
 	switch t.Underlying().(type) {
 	case *types.Pointer, *types.Interface, *types.Map, *types.Chan, *types.Signature:
 		if x.heapHoldsRefs == nil {
@@ -174,8 +178,16 @@ func (x *Exec) interiorRef(t types.Type, i int, base smt.T) smt.T {
 }
 
 // typeFacts returns range / well-formedness facts for a term of Go type t.
+func isTypeParam(t types.Type) bool {
+	_, ok := t.(*types.TypeParam)
+	return ok
+}
+
 func (x *Exec) typeFacts(v smt.T, t types.Type) []smt.T {
 	var fs []smt.T
+	if isTypeParam(t) {
+		return nil
+	}
 	switch u := t.Underlying().(type) {
 	case *types.Basic:
 		if u.Info()&types.IsInteger != 0 {
@@ -198,6 +210,9 @@ func (x *Exec) typeFacts(v smt.T, t types.Type) []smt.T {
 	case *types.Struct:
 		for i := 0; i < u.NumFields(); i++ {
 			ft := u.Field(i).Type()
+			if isTypeParam(ft) {
+				continue
+			}
 			switch ft.Underlying().(type) {
 			case *types.Basic, *types.Slice, *types.Pointer, *types.Interface:
 				fs = append(fs, x.typeFacts(x.structField(t, u, i, v), ft)...)
@@ -298,4 +313,38 @@ func (x *Exec) at(off, idx smt.T) smt.T {
 		x.axioms["at"] = "(assert (forall ((o!a Int) (j!a Int)) (! (= (at o!a j!a) (+ o!a j!a)) :pattern ((at o!a j!a)))))"
 	}
 	return smt.App(smt.Int, f, off, idx)
+}
+
+// stripTypeArgs removes type argument lists of generic named types ("Node[K,V]" -> "Node"): inside one generic body all
+// instances of a generic type are the same instance, and contracts name the type without arguments.
+func stripTypeArgs(s string) string {
+	var b strings.Builder
+	i := 0
+	for i < len(s) {
+		c := s[i]
+		if c == '[' && i > 0 && isIdentChar(s[i-1]) && !strings.HasSuffix(s[:i], "map") {
+			depth := 0
+			j := i
+			for j < len(s) {
+				if s[j] == '[' {
+					depth++
+				} else if s[j] == ']' {
+					depth--
+					if depth == 0 {
+						break
+					}
+				}
+				j++
+			}
+			i = j + 1
+			continue
+		}
+		b.WriteByte(c)
+		i++
+	}
+	return b.String()
+}
+
+func isIdentChar(c byte) bool {
+	return c == '_' || (c >= 'a' && c <= 'z') || (c >= 'A' && c <= 'Z') || (c >= '0' && c <= '9')
 }
